@@ -105,6 +105,11 @@ class TstGen:
         out.append(["new_default", "add k=6162 v=1", "add k=61 v=2", "remove k=6162", "foreach_value", "destroy"])
         out.append(["new", "it_new", "it_next", "it_remove", "it_next", "destroy"])
         out.append(["new", "add k=62 v=1", "it_new", "it_remove", "it_next", "it_next", "it_remove", "destroy"])
+        # X7: repeated it_remove for one yielded element is rejected and inert
+        out.append(["new", "add k=61 v=1", "add k=80 v=3", "add k=6162 v=2", "it_new", "it_next", "it_remove", "it_remove",
+                    "it_remove_noout", "it_next", "it_remove", "it_remove", "it_next", "it_next", "size", "destroy"])
+        out.append(["new_default", "add k=616263 v=1", "add k=61 v=2", "it_new", "it_next", "it_remove", "it_remove",
+                    "it_next", "remove_all", "add k=62 v=3", "destroy"])
         if focus in ("iter", "all"):
             for cm in ("u", "r"):
                 out.append([f"new cmp={cm}", "add k=80 v=1", "add k=61 v=2", "add k=ff v=3", "add k=6180 v=4", "foreach_key",
@@ -137,6 +142,8 @@ class TstGen:
             if focus in ("all", "iter") and rng.random() < 0.15:
                 cm = rng.choice(["u", "r"])
             ops = ["new" if cm == "s" else f"new cmp={cm}"]
+            if focus in ("all", None) and cm == "s" and rng.random() < 0.08:
+                ops = ["new_default"]                      # C library allocator (C14): never refused
             length = rng.randint(3, 50 if tier == "quick" else 90)
             present = []       # keys known to be present (unknown after an iterator program: reset)
             p_add = 0.8 if focus in ("growth", "fault") else rng.choice([0.35, 0.5, 0.7])
@@ -153,7 +160,7 @@ class TstGen:
                     k = rand_key(rng, fam)
                     assert not x5_excluded(hx(k))
                     fail = ""
-                    if focus == "all" and rng.random() < 0.12:
+                    if focus == "all" and ops[0] != "new_default" and rng.random() < 0.12:
                         fail = f" fail={rng.randint(1, len(k) + 1)}"
                     ops.append(f"add k={hx(k)} v={rng.choice([0, 1, 2, 3, rng.randint(1, 99)])}{fail}")
                     if k not in present and not fail:
@@ -194,8 +201,9 @@ class TstGen:
         return rand_key(rng, fam)
 
     def iter_program(self, rng, size_hint, early_remove=False):
-        """it_new, then next / remove with at most one removal per yielded element; sometimes runs past
-        the end, sometimes stops early; get/contains/size/foreach in between do not invalidate"""
+        """it_new, then next / remove; a repeated it_remove for the same yielded element is rejected since
+        the repair X7 (KEY_NOT_FOUND, inert) and is generated too; sometimes runs past the end, sometimes
+        stops early; get/contains/size/foreach in between do not invalidate"""
         ops = ["it_new"]
         if early_remove and rng.random() < 0.3:
             ops.append("it_remove")                       # before the first next: KEY_NOT_FOUND
@@ -205,6 +213,8 @@ class TstGen:
             ops.append("it_next")
             if rng.random() < p_rm:
                 ops.append("it_remove" if rng.random() < 0.7 else "it_remove_noout")
+                if rng.random() < 0.25:                   # repeated remove: rejected (X7)
+                    ops.append("it_remove" if rng.random() < 0.5 else "it_remove_noout")
             if rng.random() < 0.1:
                 ops.append(rng.choice(["foreach_key", "size", "foreach_value"]))
         return ops
